@@ -190,10 +190,14 @@ def lo8 (n : Nat) : UInt8 := UInt8.ofNat (n % 256)
 /-- `writeAggregated` payload -/
 def stapA (b : List NALU) : Bytes := 24 :: b.flatMap fun n => hi8 n.length :: lo8 n.length :: n
 
-/-- FU indicator / FU header of a fragment -/
-def fuHdr (hdr : UInt8) (start fin : Bool) : Bytes :=
-  [(((hdr >>> 5) &&& 3) <<< 5) ||| 28,
-   ((if start then 1 else 0 : UInt8) <<< 7) ||| ((if fin then 1 else 0 : UInt8) <<< 6) ||| (hdr &&& 0x1F)]
+/-- FU indicator: NRI of the NAL unit, type 28 -/
+def fuInd (hdr : UInt8) : UInt8 := (((hdr >>> 5) &&& 3) <<< 5) ||| 28
+
+/-- FU header: S, E, 0, type of the NAL unit -/
+def fuB1 (hdr : UInt8) (start fin : Bool) : UInt8 :=
+  ((if start then 1 else 0 : UInt8) <<< 7) ||| ((if fin then 1 else 0 : UInt8) <<< 6) ||| (hdr &&& 0x1F)
+
+def fuHdr (hdr : UInt8) (start fin : Bool) : Bytes := [fuInd hdr, fuB1 hdr start fin]
 
 def fuFrags (hdr : UInt8) (start : Bool) : List Bytes → List Bytes
   | [] => []
